@@ -149,7 +149,7 @@ def standin_typedfuzz(prop, tier, seed, scratch, root):
         rs = list(ex.map(one, range(workers)))
     if not all(r.get('ran') for r in rs):
         row['undecided'] = next(r for r in rs if not r.get('ran')).get('reason', 'fuzz did not run'); return row
-    row['bound'] = '%d random replies x 24 reply kinds (seeds %d..%d): <= 4 frames, <= 8 fields each, names from the protocol vocabulary and junk, values numeric / huge / negative / NaN / junk, optional binary' % (per * workers, 1 + max(seed, 0) * 1000, workers + max(seed, 0) * 1000)
+    row['bound'] = '%d random replies x 24 reply kinds (seeds %d..%d): <= 4 frames, <= 8 fields each, names from the protocol vocabulary and junk (a third of the replies from a per-reply subset of 2..4 names, one in eight a grouped count / list shape over Album Artist songs playtime Title, so that repeated fields occur), values numeric / huge / negative / NaN / junk, optional binary' % (per * workers, 1 + max(seed, 0) * 1000, workers + max(seed, 0) * 1000)
     bad = [r for r in rs if r['fails']]
     if not bad:
         js = [json.loads(r.get('full_output', r['output']).strip().split('\n')[-1]) for r in rs]
